@@ -134,7 +134,7 @@ impl Fiber {
     allocator.push_root(frames);
 
     let waiter = allocator.manage(ChannelWaiter::new(true), context);
-    allocator.pop_roots(1);
+    allocator.pop_roots(2);
 
     // get pointers to the call frame and stack top
     let current_frame = frames.as_mut_ptr();
